@@ -40,6 +40,7 @@ import MosaikProofs.Lemmas.Tiered
 import MosaikProofs.Closure.Sound
 import MosaikProofs.Closure.Complete
 import MosaikProofs.Build.RunConfig
+import MosaikProofs.Closure.Terminate
 namespace Mosaik.C06
 open Mosaik TI
 
@@ -307,5 +308,70 @@ theorem cycle_check_exact_flat (ops : List Build.Op) (hv : Build.Valid {} ops) (
       ∃ s p d, RealPath (Build.build ops).sims s s p d ∧ d.isZero = true :=
   cycle_check_exact_built ops hv orc
     (Build.flat_uniform (Build.build_builtOk ops {} Build.builtOk_empty hv) (Build.flatWorld_of_ops hv hf)) hdec
+
+/-! ### termination of the worklist -/
+
+/-- **the cycle check terminates** (every pop order): on well-shaped tables with uniform path cutoffs and sources in range the
+worklist of `ensure_no_dataflow_cycles` empties — there is an amount of fuel from which on the loop of the model ends, without
+an assertion, in a state with an empty worklist (to which `accept_complete` / `reject_sound` then apply).  No polynomial bound is
+claimed: the proof is a well-founded descent on the table of stored delays (`Closure/Terminate.lean`); the fixed fuel of the
+executable `ensureNoCycles` is compared with the implementation by the correspondence (a `nonterminating` answer of the driver
+would be a disagreement).  Outside `Uniform` (finding D7) the real worklist can genuinely run forever. -/
+theorem worklist_terminates (sims : List SimCfg) (orc : List Nat) (hS : Shaped sims) (hU : Uniform sims) (hR : SrcRange sims) :
+    ∃ k, ∀ fuel, k ≤ fuel → ∃ st, cycLoop sims fuel (cycInit sims) orc = .ok st ∧ st.dirty = [] := by
+  obtain ⟨k, hk⟩ := Mosaik.worklist_terminates sims orc hS hU hR
+  refine ⟨k, fun fuel hf => ?_⟩
+  cases hl : cycLoop sims fuel (cycInit sims) orc with
+  | error e =>
+    cases e with
+    | assertion => exact absurd hl (cycLoop_no_assertion hS hU fuel _ orc (cycInit_real sims))
+    | fuel => exact absurd hl (hk fuel hf)
+  | ok st =>
+    by_cases hd : st.dirty = []
+    · exact ⟨st, rfl, hd⟩
+    · -- `cycLoop` answers `ok` only with an empty worklist
+      exfalso
+      have : ∀ (fuel : Nat) (st0 st1 : CycState) (orc : List Nat), cycLoop sims fuel st0 orc = .ok st1 → st1.dirty = [] := by
+        intro fuel
+        induction fuel with
+        | zero =>
+          intro st0 st1 orc h
+          unfold cycLoop at h
+          split at h
+          · rename_i he; cases h; simpa using he
+          · cases h
+        | succ f ih =>
+          intro st0 st1 orc h
+          unfold cycLoop at h
+          cases hp : popAt st0.dirty (orc.headD 0) with
+          | none => rw [hp] at h; cases h; exact popAt_none hp
+          | some v =>
+            obtain ⟨mid, rest⟩ := v
+            rw [hp] at h
+            simp only at h
+            cases hrel : cycRelax sims { st0 with dirty := rest } mid with
+            | error e => rw [hrel] at h; cases h
+            | ok st2 => rw [hrel] at h; exact ih st2 st1 orc.tail h
+      exact hd (this fuel _ _ orc hl)
+
+/-- … for every built scenario: shapes and source ranges follow from the builder invariant; `Uniform` remains -/
+theorem worklist_terminates_built (ops : List Build.Op) (hv : Build.Valid {} ops) (orc : List Nat)
+    (hU : Uniform (Build.build ops).sims) :
+    ∃ k, ∀ fuel, k ≤ fuel → ∃ st, cycLoop (Build.build ops).sims fuel (cycInit (Build.build ops).sims) orc = .ok st ∧ st.dirty = [] := by
+  have hb := Build.build_builtOk ops {} Build.builtOk_empty hv
+  refine worklist_terminates _ orc (Build.built_shaped hb) hU ?_
+  intro t s d hd
+  have ht : t < (Build.build ops).sims.length := by
+    by_cases ht : t < (Build.build ops).sims.length
+    · exact ht
+    · rw [List.getD_eq_getElem?_getD, List.getElem?_eq_none (Nat.le_of_not_lt ht)] at hd
+      cases hd
+  exact (hb.inShape t ht (s, d) hd).1
+
+/-- … and for scenarios without groups no hypothesis is left (`Uniform` holds outright) -/
+theorem worklist_terminates_flat (ops : List Build.Op) (hv : Build.Valid {} ops) (hf : Build.flatOps ops = true) (orc : List Nat) :
+    ∃ k, ∀ fuel, k ≤ fuel → ∃ st, cycLoop (Build.build ops).sims fuel (cycInit (Build.build ops).sims) orc = .ok st ∧ st.dirty = [] :=
+  worklist_terminates_built ops hv orc
+    (Build.flat_uniform (Build.build_builtOk ops {} Build.builtOk_empty hv) (Build.flatWorld_of_ops hv hf))
 
 end Mosaik.C06
